@@ -285,6 +285,55 @@ def rule_h1(repo, res):
                         "quantity through the decoder", where=f"pvl/parser.py:{pu.lineno}"))
 
 
+def rule_h5(repo, res):
+    """H5: an object the caller hands to a parser, decoder or encoder is used as it is.  Abstract interpretation of the
+    constructors (vsa.ctor) with a given decoder D and grammar G: afterwards self.decoder *is* D and self.grammar *is*
+    G (object identity).  A constructor that rebuilds the caller's decoder (type(decoder)(grammar=...)) silently
+    drops its real_cls / quantity_cls."""
+    from . import ctor
+    n = 0
+    for base, given in (("PVLParser", ("grammar", "decoder")), ("PVLEncoder", ("grammar", "decoder")), ("PVLDecoder", ("grammar",))):
+        for c in sorted(repo.subclasses(base)):
+            G = ctor.Inst("OmniGrammar")
+            D = ctor.Inst("OmniDecoder")
+            kwargs = {"grammar": G}
+            if "decoder" in given:
+                kwargs["decoder"] = D
+            try:
+                inst = ctor.construct(repo, c, **kwargs)
+            except AnalysisError as x:
+                raise AnalysisError(f"H5: constructor of {c} not interpretable: {x}")
+            for name, obj in (("grammar", G), ("decoder", D)):
+                if name not in given:
+                    continue
+                n += 1
+                ok = inst.attrs.get(name) is obj
+                res.oblige("H5", f"{c}({', '.join(k + '=<given>' for k in kwargs)}).{name} is the caller's object", ok=ok)
+                if not ok:
+                    res.add(Finding("H5", f"{c}.__init__", f"self.{name} is not the given {name}",
+                                    f"{c}(..., {name}=X) does not keep X as self.{name} (it holds `{inst.attrs.get(name)!r}`): a "
+                                    f"{name} the caller configured (real_cls, quantity_cls, tables) is replaced by another object",
+                                    where=f"pvl/{repo.classes[c].module.name}.py:{repo.classes[c].node.lineno}"))
+    res.floor("H5 constructor obligations", n, 10)
+
+
+def rule_v6(repo, res):
+    """V6: the pvl.new container family compares names like the default family -- case-sensitively: its third-party
+    base is multidict's MultiDict, not the case-insensitive CIMultiDict (item assignment would then replace, and
+    delete, names that differ only in letter case)."""
+    mod = repo.module("collections")
+    c = mod.classes.get("PVLMultiDict")
+    if c is None:
+        raise AnalysisError("anchor vanished: class PVLMultiDict in pvl/collections.py")
+    bases = [norm(b) for b in c.bases]
+    ok = any(b.split(".")[-1] == "MultiDict" for b in bases) and not any("CI" in b.split(".")[-1] for b in bases)
+    res.oblige("V6", f"PVLMultiDict derives from MultiDict (bases {bases})", ok=ok)
+    if not ok:
+        res.add(Finding("V6", "PVLMultiDict", "third-party base class", f"PVLMultiDict derives from {bases}: names are no longer "
+                        "compared case-sensitively as in OrderedMultiDict, so keyed replacement treats Core and core as one name",
+                        where=f"pvl/collections.py:{c.lineno}"))
+
+
 def rule_v5(repo, res):
     """V5: in both container families, append(key, value) takes exactly a key and a value (no default that stands for
     "not given": None is the value of a PVL NULL) and adds that one pair whatever the value is -- no test on the value."""
